@@ -486,6 +486,56 @@ def abc_register(rep):
                 replay=dict(reproduced=True, detail=p.stdout.strip()[-300:]), replay_script=f"import subprocess\nenv = dict(os.environ); env['PYTHONPATH'] = {REPO!r}\np = subprocess.run([sys.executable, '-c', {ABCREG_SRC!r}], env=env, cwd='/')\nsys.exit(p.returncode)\n")
     rep.bounded.append(dict(kind='is_subhint asked before / after an ABC registration vs a never-queried twin (bounded stand-in, NOT counted as proved)', scenarios=2, failing=int(p.returncode == 1)))
 
+DOORKEY_SRC = """
+import sys
+from typing import TypeVar, Annotated
+from beartype.door import is_subhint, TypeHint, is_bearable
+from beartype.vale import Is
+bad = []
+def make(base):
+    class Widget(base): pass
+    return Widget
+def worlds():
+    IntW, StrW = make(int), make(str)                                   # two classes with ONE repr
+    yield 'classes of one factory', IntW, StrW, int, IntW(1), StrW('a')
+    T1, T2 = TypeVar('T', bound=int), TypeVar('T', bound=str)           # two type variables with ONE repr
+    yield 'type variables of one name', T1, T2, int, 1, 'a'
+    ge = lambda k: Annotated[int, Is[lambda x: x >= k]]
+    yield 'validators closing over different values', ge(0), ge(10), None, 5, None
+for label, first, second, sup, o1, o2 in worlds():
+    a1 = is_subhint(first, sup) if sup is not None else None; w1 = TypeHint(first)      # the older look-alike is asked first
+    a2 = is_subhint(second, sup) if sup is not None else None; w2 = TypeHint(second)
+    if w1 is w2: bad.append(f'{label}: TypeHint() of two DIFFERENT hints with the same repr is one wrapper')
+    if w2.hint is not second: bad.append(f'{label}: TypeHint(second).hint is not the hint that was passed')
+    if sup is not None and (a1, a2) != (True, False): bad.append(f'{label}: is_subhint gave {(a1, a2)} for (first <= {sup.__name__}, second <= {sup.__name__}); expected (True, False)')
+    if w2.is_bearable(o1) != is_bearable(o1, second): bad.append(f'{label}: TypeHint(second).is_bearable answers for the other hint')
+print(bad[:3]); sys.exit(1 if bad else 0)
+"""
+def door_cache(rep):
+    """the TypeHint wrapper table: (S) its key is the hint itself and the wrapper is built from that same hint (a key that does not determine the
+    hint - repr(), id() of a collectable object - makes TypeHint / is_subhint answer for a look-alike asked about earlier);
+    (b) history scenario with look-alike hints in a fresh interpreter"""
+    import subprocess
+    from pyvc import funcmode, REPO
+    fobj, node, _ = funcmode.load('beartype/door/_cls/doormeta.py', '_TypeHintMetaclass.__call__')
+    params = [a.arg for a in node.args.args]
+    hint_name = params[1] if len(params) > 1 else 'hint'
+    stores = [a for a in ast.walk(node) if isinstance(a, (ast.Assign, ast.AugAssign, ast.NamedExpr)) and any(isinstance(t, ast.Name) and t.id == hint_name for t in ast.walk(a.targets[0] if isinstance(a, ast.Assign) else a.target))]
+    calls = [c for c in ast.walk(node) if isinstance(c, ast.Call) and isinstance(c.func, ast.Attribute) and c.func.attr in ('cache_or_get_cached_func_return_passed_arg', 'cache_or_get_cached_value')]
+    ok = len(calls) == 1 and not stores
+    if ok:
+        kw = {k.arg: k.value for k in calls[0].keywords}
+        ok = isinstance(kw.get('key'), ast.Name) and kw['key'].id == hint_name and (('arg' not in kw) or (isinstance(kw['arg'], ast.Name) and kw['arg'].id == hint_name))
+    rep.add('C14.TypeHint.table_key_is_the_hint', 'proved' if ok else 'refuted', backend='structural',
+            where=f'_TypeHintMetaclass.__call__ memoises the wrapper under key=<the hint passed> ' + ('(and builds it from that hint)' if ok else f'- NOT so: key expression is {ast.unparse(dict((k.arg, k.value) for k in calls[0].keywords).get("key")) if calls else "?"}'))
+    env = dict(os.environ); env['PYTHONPATH'] = REPO
+    p = subprocess.run([sys.executable, '-c', DOORKEY_SRC], capture_output=True, text=True, timeout=120, env=env, cwd='/')
+    if p.returncode not in (0, 1) or (p.returncode == 1 and not p.stdout.strip().startswith('[')): rep.error('C14 door_cache harness: ' + (p.stdout + p.stderr)[-600:]); return
+    if p.returncode == 1:
+        rep.add('C14.history.typehint_after_a_lookalike_hint', 'refuted', backend='runtime-contract', bounded=True, where=p.stdout.strip()[-400:], solver_output='bounded run-time contract in a fresh interpreter (not a proof)',
+                replay=dict(reproduced=True, detail=p.stdout.strip()[-300:]), replay_script=f"import subprocess\nenv = dict(os.environ); env['PYTHONPATH'] = os.environ.get('VERIF_REPO', {REPO!r})\np = subprocess.run([sys.executable, '-c', {DOORKEY_SRC!r}], env=env, cwd='/')\nsys.exit(p.returncode)\n")
+    rep.bounded.append(dict(kind='TypeHint / is_subhint asked about a hint after a look-alike (same repr) hint (bounded stand-in, NOT counted as proved)', scenarios=3, failing=int(p.returncode == 1)))
+
 REPR_SRC = """
 from typing import Annotated
 from beartype.vale import Is
@@ -548,7 +598,7 @@ def main(tier, seed):
     rep = report.Report('C14', tier, seed, 'proof', f'./check C14 --tier {tier}')
     for fn, args in ((memoiser, ('callable_cached', 'beartype/_util/cache/utilcachecall.py', 'callable_cached', '_callable_cached', False)),
                      (memoiser, ('method_cached_arg_by_id', 'beartype/_util/cache/utilcachecall.py', 'method_cached_arg_by_id', '_method_cached', True)),
-                     (cache_unbounded, ()), (structural, ()), (redefinition, ()), (cacheable_flag, ()), (forward_refs, ()), (coerce_transparent, ()), (fwdref_cache, ()), (abc_register, ())):
+                     (cache_unbounded, ()), (structural, ()), (redefinition, ()), (cacheable_flag, ()), (forward_refs, ()), (coerce_transparent, ()), (fwdref_cache, ()), (abc_register, ()), (door_cache, ())):
         try: fn(rep, *args)
         except Exception: rep.error(f'C14 {fn.__name__}{args[:1]}: ' + traceback.format_exc()[-1800:])
     files = ['beartype/_util/cache/utilcachecall.py', 'beartype/_util/cache/map/utilmapunbounded.py', 'beartype/_util/cache/utilcacheclear.py', 'beartype/_decor/_type/decortype.py']
